@@ -33,6 +33,10 @@ fn main() {
         a5verif::checks::purity::sched_child(&args[3], &args[4]);
         std::process::exit(0);
     }
+    if prop == "C13" && args[2] == "--first-child" {
+        a5verif::checks::purity::first_child(&args[3], &args[4]);
+        std::process::exit(0);
+    }
     if prop == "C13" && args[2] == "--race-child" {
         a5verif::checks::purity::race_child(&args[3]);
         std::process::exit(0);
